@@ -104,6 +104,22 @@ def run_chunk(cid, seed, config, start, stop, digest_upto):
     state the code under test keeps between requests is a function of the
     chunk (the earlier runs of the same chunk) and not of which worker
     happened to serve which chunks before."""
+    for attempt in (1, 2):
+        try:
+            return _run_chunk_forked(cid, seed, config, start, stop,
+                                     digest_upto)
+        except _ChunkProcessDied as e:
+            # (e.g. the kernel's OOM killer while other invocations share
+            # the machine: once more, then it is the harness's problem)
+            if attempt == 2:
+                raise HarnessError(str(e))
+
+
+class _ChunkProcessDied(Exception):
+    pass
+
+
+def _run_chunk_forked(cid, seed, config, start, stop, digest_upto):
     import pickle
     rfd, wfd = os.pipe()
     pid = os.fork()
@@ -130,8 +146,8 @@ def run_chunk(cid, seed, config, start, stop, digest_upto):
         how = ("killed by signal %d" % os.WTERMSIG(status)
                if os.WIFSIGNALED(status) else
                "exit status %d" % os.WEXITSTATUS(status))
-        raise HarnessError("the process of chunk %s/%d-%d died without a "
-                           "result (%s)" % (config, start, stop, how))
+        raise _ChunkProcessDied("the process of chunk %s/%d-%d died without "
+                                "a result (%s)" % (config, start, stop, how))
     kind, out = pickle.loads(data)
     if kind == "exc":
         raise HarnessError("chunk %s/%d-%d: %s" % (config, start, stop, out))
